@@ -25,6 +25,8 @@ def rule(prog, rule_):
                 lhs = strip(x.get("lhs"))
                 if isinstance(lhs, dict) and lhs.get("k") == "un" and lhs.get("op") == "*" and path(strip(lhs.get("e"))) == name:
                     stores.append((b.id, i))
+                elif isinstance(lhs, dict) and lhs.get("k") == "index" and path(strip(lhs.get("base"))) == name and const(lhs.get("idx")) == 0:
+                    stores.append((b.id, i))
             if not stores:
                 continue
             for (b, i, r, x) in fn.returns():
